@@ -474,6 +474,11 @@ func exploreFileServer(c *Ctx, r *RuleResult) []*fsRun {
 					if hostPath(e.Args[0]) {
 						run.Leak, run.LeakText = true, "ServeContent name "+keyOf(e.Args[0])
 					}
+				case "xml.Encode.value":
+					// the multi-status body: every string in it (hrefs!)
+					if where, ok := deepHostPath(in, e.Args[0], "body", 0); ok {
+						run.Leak, run.LeakText = true, "XML body, "+where
+					}
 				}
 			}
 			for k, v := range in.ch.valuation() {
@@ -776,6 +781,49 @@ func c01Forced(c *Ctx, r *RuleResult, runs []*fsRun) {
 	r.RequireRole("forced-failure")
 }
 
+// deepHostPath looks for a host-path-tainted string anywhere inside a value.
+func deepHostPath(in *Interp, v Val, where string, depth int) (string, bool) {
+	if depth > 10 || v == nil {
+		return "", false
+	}
+	switch x := v.(type) {
+	case SymStr:
+		if x.HostPath {
+			return where + " = " + x.Key, true
+		}
+	case Iface:
+		return deepHostPath(in, x.V, where, depth+1)
+	case Ptr:
+		if x.C != nil {
+			return deepHostPath(in, x.C.Get(), where, depth+1)
+		}
+	case Struct:
+		st, _ := x.T.Underlying().(*types.Struct)
+		for i, f := range x.F {
+			name := fmt.Sprint(i)
+			if st != nil && i < st.NumFields() {
+				name = st.Field(i).Name()
+			}
+			if w, ok := deepHostPath(in, f.Get(), where+"."+name, depth+1); ok {
+				return w, true
+			}
+		}
+	case Slice:
+		for i, c := range x.E {
+			if w, ok := deepHostPath(in, c.Get(), fmt.Sprintf("%s[%d]", where, i), depth+1); ok {
+				return w, true
+			}
+		}
+	case LazySlice:
+		for i, c := range in.materialise(x).E {
+			if w, ok := deepHostPath(in, c.Get(), fmt.Sprintf("%s[%d]", where, i), depth+1); ok {
+				return w, true
+			}
+		}
+	}
+	return "", false
+}
+
 func c17Leaks(c *Ctx, r *RuleResult, runs []*fsRun) {
 	seen := map[string]bool{}
 	for _, run := range runs {
@@ -789,15 +837,28 @@ func c17Leaks(c *Ctx, r *RuleResult, runs []*fsRun) {
 		} else if strings.HasPrefix(run.Status, "4") || strings.HasPrefix(run.Status, "5") {
 			k = run.Method + "|refused " + run.Status
 		}
-		if seen[k] {
+		if os.Getenv("GWFSALL") == run.Method {
+			fmt.Printf("   run: status=%s leak=%v %s\n", run.Status, run.Leak, run.describe())
+		}
+		// EVERY run is examined: runs that share a deciding fault can still
+		// differ in what follows it (a second stat that picks another error
+		// path); only the reporting is grouped by key
+		if seen[k] && (!run.Leak || seen["leak|"+k]) {
 			continue
 		}
-		seen[k] = true
-		r.Ob(!run.Leak)
-		if os.Getenv("GWFSROWS") != "" {
-			fmt.Printf("   row: %-70s status=%s leak=%v   %s\n", k, run.Status, run.Leak, run.describe())
+		if !seen[k] {
+			r.Ob(!run.Leak)
+			if os.Getenv("GWFSROWS") != "" {
+				fmt.Printf("   row: %-70s status=%s leak=%v   %s\n", k, run.Status, run.Leak, run.describe())
+			}
+			r.Sample(map[string]interface{}{"row": k, "status": run.Status, "host_path_in_response": run.Leak})
+		} else {
+			r.Ob(false)
 		}
-		r.Sample(map[string]interface{}{"row": k, "status": run.Status, "host_path_in_response": run.Leak})
+		seen[k] = true
+		if run.Leak {
+			seen["leak|"+k] = true
+		}
 		if run.Leak {
 			r.Violation("leak|"+k, pos, fmt.Sprintf("%s: the response (status %s) contains the absolute host path: %s. Trace: %s", run.Method, run.Status, run.LeakText, run.describe()), nil)
 		}
